@@ -18,7 +18,10 @@ TRUSTED = ["Lean model of the JSON→XML converter and of main's control flow (t
 
 CLI_TARGET = os.path.join(vlib.WORK, "cli-target")
 CLI = os.path.join(CLI_TARGET, "debug", "gamedig_cli")
-GAMES = [("teamfortress2", "S:440", "ttT"), ("theforest", "S:242760:556450", "ttT"), ("sco", "G:0", "ttT"), ("valheim", "S:892970", "esT")]
+# (valheim skips the rules, conanexiles the players, armareforger does not check the app id: games whose DEFINITION carries
+# settings of its own — the CLI must issue the definition's query when no flag says otherwise)
+GAMES = [("teamfortress2", "S:440", "ttT"), ("theforest", "S:242760:556450", "ttT"), ("sco", "G:0", "ttT"), ("valheim", "S:892970", "esT"),
+         ("armareforger", "S:1874880", "eeF"), ("conanexiles", "S:440900", "seT")]
 FORMATS = ["debug", "json", "json-pretty", "xml", "bson-hex", "bson-base64"]
 MODES = ["generic", "protocol-specific"]
 
@@ -41,16 +44,18 @@ class Server(threading.Thread):
         self.deliveries = list(deliveries)
         self.bursts = list(bursts) if bursts is not None else None
         self.stop = False
+        self.seen = []   # the datagrams received, in order
 
     def run(self):
         i = 0
         while not self.stop:
             try:
-                _, frm = self.sock.recvfrom(65536)
+                req, frm = self.sock.recvfrom(65536)
             except socket.timeout:
                 continue
             except OSError:
                 return
+            self.seen.append(req)
             if self.bursts is None:
                 if i < len(self.deliveries) and self.deliveries[i] is not None:
                     self.sock.sendto(self.deliveries[i], frm)
@@ -398,6 +403,12 @@ def run(rep, tier, seed, replay=None):
                 finally:
                     srv.close()
                 key = f"{cid}:{gid}:{mode}:{fmt}"
+                # the CLI issues the query the library issues for this game (same requests in the same order): whatever it adds
+                # to or leaves out of the settings shows on the wire
+                lib_sent = [d for (_, _, d, failed) in vlib.sends_of(lib_line) if not failed]
+                if [x.hex() for x in srv.seen] != lib_sent:
+                    rep.oracle_failures.append((f"cli-other-query:{gid}", f"the CLI sent {[x.hex()[:24] for x in srv.seen]}, the library's query of this game sends {[x[:24] for x in lib_sent]}",
+                                                f"{key} gamedig_cli query -g {gid} -f {fmt} -o {mode}  script={c.fmt_script()[:600]}", ""))
                 rep.seen(key, out[:200].decode("utf-8", "replace"))
                 rep.count("format:" + fmt)
                 case_desc = f"{key} gamedig_cli query -g {gid} -f {fmt} -o {mode}  script={c.fmt_script()[:600]}"
